@@ -59,9 +59,21 @@ def is_num(v):
     return v is not None and v[0] in ("i", "f")
 
 
+_FRAC = {}
+
+
 def frac(v):
-    """exact rational of a numeric val"""
-    return Fr(v[1]) if v[0] == "i" else Fr(v[1])
+    """exact rational of a numeric val (parsed once per distinct text)"""
+    k = v[1]
+    r = _FRAC.get(k)
+    if r is None:
+        if len(_FRAC) > 400000:
+            _FRAC.clear()
+        r = _FRAC[k] = Fr(k)
+    return r
+
+
+_PYF = {}
 
 
 def pyval(v):
@@ -71,8 +83,12 @@ def pyval(v):
     if v[0] == "i":
         return int(v[1])
     if v[0] == "f":
-        q = Fr(v[1])
-        x = q.numerator / q.denominator
+        x = _PYF.get(v[1])
+        if x is None:
+            q = Fr(v[1])
+            if len(_PYF) > 400000:
+                _PYF.clear()
+            x = _PYF[v[1]] = q.numerator / q.denominator
         return x
     return v[1]
 
@@ -91,6 +107,17 @@ def val_of_py(x):
     if isinstance(x, str):
         return ["s", x]
     return None
+
+
+def as_double(v):
+    """a float val is a double: the sum of a non-dyadic double and an offset is replaced by the double nearest to it (what
+    `pyval` hands to the implementation anyway), so that Spec and implementation see the same number"""
+    if v is not None and v[0] == "f" and v[1] != "nan":
+        q = frac(v)
+        if q.denominator & (q.denominator - 1) or q.numerator.bit_length() > 53:
+            if not exact_double(q):
+                return vf(Fr(q.numerator / q.denominator))
+    return v
 
 
 def exact_double(q):
@@ -194,6 +221,165 @@ def build(desc):
            "TEXTTABLE": "TexttableCompuMethod", "COMPUCODE": "CompuCodeCompuMethod"}[desc["cat"]]
     return o[cls](category=o["CompuCategory"](desc["cat"]), compu_internal_to_phys=i2p, compu_phys_to_internal=p2i,
                   physical_type=o["DataType"](pty), internal_type=o["DataType"](ity))
+
+
+# ------------------------------------------------------------------ desc -> ODX XML -> odxtools object (round 6)
+# The second way into the anchored code: the description is written as the COMPU-METHOD element of a
+# DATA-OBJECT-PROP and read by the real loader (`DataObjectProperty.from_et` -> `create_any_compu_method_from_et`
+# -> `*.compu_method_from_et` -> `CompuScale.compuscale_from_et`, `Limit.limit_from_et`, `CompuConst/
+# CompuInverseValue/CompuDefaultValue.compuvalue_from_et`, `CompuRationalCoeffs.coeffs_from_et`).
+# The emitter below is the harness' own (~40 lines); it mirrors `build` field by field.
+CODED_BITS = {"A_UINT32": 32, "A_INT32": 32, "A_FLOAT32": 32, "A_FLOAT64": 64}
+XSI = 'xmlns:xsi="http://www.w3.org/2001/XMLSchema-instance"'
+
+
+def _esc(t):
+    return t.replace("&", "&amp;").replace("<", "&lt;").replace(">", "&gt;")
+
+
+def _xml_v(tag, v):
+    """a V/VT value union: texts as VT, numbers as V (what `_const` hands to the constructors)"""
+    if v is None:
+        return ""
+    inner = f"<VT>{_esc(v[1])}</VT>" if v[0] == "s" else f"<V>{_raw(v)}</V>"
+    return f"<{tag}>{inner}</{tag}>"
+
+
+def _xml_limit(tag, l):
+    if l is None:
+        return ""
+    a = f' INTERVAL-TYPE="{l["t"]}"' if l["t"] is not None else ""
+    if l["v"] is None:
+        return f"<{tag}{a}/>"
+    return f"<{tag}{a}>{_esc(_raw(l['v']))}</{tag}>"
+
+
+def _xml_scale(s):
+    out = ["<COMPU-SCALE>", _xml_limit("LOWER-LIMIT", s.get("lo")), _xml_limit("UPPER-LIMIT", s.get("hi")),
+           _xml_v("COMPU-INVERSE-VALUE", s.get("inv")), _xml_v("COMPU-CONST", s.get("const"))]
+    if s.get("num") is not None:
+        out.append("<COMPU-RATIONAL-COEFFS><COMPU-NUMERATOR>" + "".join(f"<V>{_raw(x)}</V>" for x in s["num"]) + "</COMPU-NUMERATOR>")
+        if s.get("den"):
+            out.append("<COMPU-DENOMINATOR>" + "".join(f"<V>{_raw(x)}</V>" for x in s["den"]) + "</COMPU-DENOMINATOR>")
+        out.append("</COMPU-RATIONAL-COEFFS>")
+    out.append("</COMPU-SCALE>")
+    return "".join(out)
+
+
+def _xml_side(tag, side, default_as_v):
+    if side is None:
+        return ""
+    out = [f"<{tag}>"]
+    if side["scales"]:
+        out.append("<COMPU-SCALES>" + "".join(_xml_scale(s) for s in side["scales"]) + "</COMPU-SCALES>")
+    dv = side.get("default")
+    if dv is not None:
+        if dv[0] == "s" and not default_as_v:
+            out.append(f"<COMPU-DEFAULT-VALUE><VT>{_esc(dv[1])}</VT></COMPU-DEFAULT-VALUE>")
+        else:
+            out.append(f"<COMPU-DEFAULT-VALUE><V>{_esc(_raw(dv))}</V></COMPU-DEFAULT-VALUE>")
+    out.append(f"</{tag}>")
+    return "".join(out)
+
+
+def xml_of_desc(desc):
+    """the COMPU-METHOD element of the description"""
+    return (f"<COMPU-METHOD><CATEGORY>{desc['cat']}</CATEGORY>" + _xml_side("COMPU-INTERNAL-TO-PHYS", desc.get("i2p"), False) +
+            _xml_side("COMPU-PHYS-TO-INTERNAL", desc.get("p2i"), True) + "</COMPU-METHOD>")
+
+
+def xml_expressible(desc):
+    """XML cannot tell an empty limit text from an absent one (`<LOWER-LIMIT></LOWER-LIMIT>` has no text): descriptions
+    with an empty string as limit value have no XML form"""
+    for side in (desc.get("i2p"), desc.get("p2i")):
+        for s in (side or {}).get("scales") or []:
+            for l in (s.get("lo"), s.get("hi")):
+                if l is not None and l["v"] is not None and l["v"][0] == "s" and l["v"][1] == "":
+                    return False
+    return True
+
+
+def dop_xml(desc):
+    """a DATA-OBJECT-PROP around the compu method: standard-length coded type of the internal type (32/64 bit)"""
+    ity = desc["ity"]
+    return (f'<DATA-OBJECT-PROP ID="dop.c07" {XSI}><SHORT-NAME>c07</SHORT-NAME>' + xml_of_desc(desc) +
+            f'<DIAG-CODED-TYPE BASE-DATA-TYPE="{ity}" xsi:type="STANDARD-LENGTH-TYPE"><BIT-LENGTH>{CODED_BITS[ity]}</BIT-LENGTH>'
+            f'</DIAG-CODED-TYPE><PHYSICAL-TYPE BASE-DATA-TYPE="{desc["pty"]}"/></DATA-OBJECT-PROP>')
+
+
+def load_xml(desc):
+    """-> (compu method, DOP or None, None) or (None, None, error class).  Numeric internal types are loaded as a whole
+    DATA-OBJECT-PROP (the compu method is `dop.compu_method`), string internal types through
+    `create_any_compu_method_from_et` alone."""
+    try:
+        from xml.etree import ElementTree
+        from odxtools.odxlink import OdxDocFragment
+        frags = [OdxDocFragment("c07", "CONTAINER")]
+        if desc["ity"] in CODED_BITS:
+            from odxtools.dataobjectproperty import DataObjectProperty
+            dop = DataObjectProperty.from_et(ElementTree.fromstring(dop_xml(desc)), frags)
+            return dop.compu_method, dop, None
+        from odxtools.compumethods.createanycompumethod import create_any_compu_method_from_et
+        o = O()
+        cm = create_any_compu_method_from_et(ElementTree.fromstring(xml_of_desc(desc)), frags,
+                                             internal_type=o["DataType"](desc["ity"]), physical_type=o["DataType"](desc["pty"]))
+        return cm, None, None
+    except Exception as e:  # noqa: the code under test may raise anything
+        return None, None, err_class(e)
+
+
+def coded_bytes(ity, z):
+    """the bytes of internal value z in the coded type of `dop_xml` (big endian, two's complement / IEEE), None when z
+    does not fit, is not exactly representable or is not of the Python type the coded type yields (int / float)"""
+    import struct
+    try:
+        if ity == "A_UINT32":
+            return int(z[1]).to_bytes(4, "big") if z[0] == "i" and 0 <= int(z[1]) < 2**32 else None
+        if ity == "A_INT32":
+            return int(z[1]).to_bytes(4, "big", signed=True) if z[0] == "i" and -2**31 <= int(z[1]) < 2**31 else None
+        if z[0] != "f" or z[1] == "nan":
+            return None
+        fmt = ">f" if ity == "A_FLOAT32" else ">d"
+        b = struct.pack(fmt, float(pyval(z)))
+        return b if Fr(struct.unpack(fmt, b)[0]) == frac(z) else None
+    except (OverflowError, ValueError, struct.error):
+        return None
+
+
+def coded_value(ity, hexstr):
+    """the internal value that the bytes of the coded type of `dop_xml` stand for (None: wrong length)"""
+    import struct
+    try:
+        b = bytes.fromhex(hexstr)
+        if len(b) * 8 != CODED_BITS[ity]:
+            return None
+        if ity in INT_TYPES:
+            return vi(int.from_bytes(b, "big", signed=(ity == "A_INT32")))
+        return val_of_py(struct.unpack(">f" if ity == "A_FLOAT32" else ">d", b)[0])
+    except (ValueError, struct.error):
+        return None
+
+
+def dop_encode(dop, p):
+    """DataObjectProperty.encode_into_pdu of a single value -> ('ok', hex) | ('err', class); never raises"""
+    try:
+        from odxtools.encodestate import EncodeState
+        es = EncodeState(is_end_of_pdu=True)
+        dop.encode_into_pdu(pyval(p), es)
+        return ("ok", bytes(es.coded_message).hex())
+    except Exception as e:  # noqa
+        return ("err", err_class(e))
+
+
+def dop_decode(dop, raw):
+    """DataObjectProperty.decode_from_pdu of a single value -> ('ok', val) | ('err', class); never raises"""
+    try:
+        from odxtools.decodestate import DecodeState
+        r = dop.decode_from_pdu(DecodeState(coded_message=bytes(raw)))
+        w = val_of_py(r)
+        return ("ok", w) if w is not None else ("err", "foreign:returned-" + type(r).__name__)
+    except Exception as e:  # noqa
+        return ("err", err_class(e))
 
 
 # ------------------------------------------------------------------ odxtools object -> desc
@@ -503,6 +689,26 @@ def lin_coeffs(s):
     return o, f, d
 
 
+def _memo(fn):
+    """per-Spec memo of a one-value query (the two routes of c07.py ask the same questions); exceptions are not cached"""
+    name = fn.__name__
+
+    def w(self, x, *a):
+        if a or not isinstance(x, list) or len(x) != 2:
+            return fn(self, x, *a)
+        k = (name, x[0], x[1])
+        try:
+            return self._memo[k]
+        except KeyError:
+            r = self._memo[k] = fn(self, x)
+            return r
+        except TypeError:       # unhashable value
+            return fn(self, x)
+    w.__name__ = name
+    w.__doc__ = fn.__doc__
+    return w
+
+
 class Spec:
     """exact ODX semantics of a desc; every method returns None where the formula is undefined"""
 
@@ -513,6 +719,7 @@ class Spec:
         self.bwd = None if desc.get("p2i") is None else desc["p2i"]["scales"]
         self.pdef = (desc.get("i2p") or {}).get("default")
         self.idef = (desc.get("p2i") or {}).get("default")
+        self._memo = {}
 
     # -- which scale is responsible for an internal value (first applicable)
     def scale_for(self, x, scales=None, ty=None):
@@ -521,6 +728,7 @@ class Spec:
                 return k, s
         return None
 
+    @_memo
     def valid_internal(self, x):
         c = self.cat
         if c == "IDENTICAL":
@@ -542,6 +750,7 @@ class Spec:
             return any(text_applies(s, x) for s in self.fwd)
         return admissible(self.ity, x) and self.scale_for(x) is not None
 
+    @_memo
     def forward_exact(self, x):
         """exact physical value (a Fraction, before integer rounding), a text value, or None"""
         c = self.cat
@@ -584,6 +793,7 @@ class Spec:
         lo, hi = img(s.get("lo")), img(s.get("hi"))
         return (lo, hi) if f >= 0 else (hi, lo)
 
+    @_memo
     def phys_scale_for(self, p):
         for k, s in enumerate(self.fwd):
             lo, hi = self.phys_limits(s)
@@ -591,6 +801,7 @@ class Spec:
                 return k, s
         return None
 
+    @_memo
     def valid_physical(self, p):
         c = self.cat
         if c == "IDENTICAL":
@@ -614,6 +825,7 @@ class Spec:
             return any(veq(s.get("const"), p) for s in self.fwd if s.get("const") is not None)
         return False
 
+    @_memo
     def backward_exact(self, p):
         c = self.cat
         if c == "IDENTICAL":
@@ -1071,6 +1283,139 @@ def gen_texttable_zero(rng, ity=None, n=None):
     return d
 
 
+# ------------------------------------------------------------------ decimal coefficients (round 6)
+# Coefficients as they are written in real ODX files: decimal fractions (0.1, 0.3, -0.7, 2.1 ...) that no double
+# represents.  The description carries the double nearest to each decimal (what the XML reader / `float("0.1")`
+# produces), so Spec and model still compute exactly — but with the *double's* rational, for which a method that is
+# continuous in decimal arithmetic is continuous only up to ~1e-16, and the implementation's own double evaluation
+# of the two formulas at a common boundary yields two different numbers.  Everything in the code that compares such
+# numbers (continuity test of the invertibility analysis, derived physical limits, `physical_applies`) is only
+# exercised by this family; halves and quarters (all other families) are exact in doubles.
+DEC_SLOPES = [Fr(1, 10), Fr(1, 5), Fr(3, 10), Fr(7, 10), Fr(11, 10)]
+DEC_SLOPES_MORE = DEC_SLOPES + [Fr(1, 100), Fr(5, 100), Fr(9, 10), Fr(17, 10), Fr(21, 10), Fr(1, 3), Fr(2, 7), Fr(3)]
+DEC_KINK_VALUES = [Fr(0), Fr(3, 10), Fr(-17, 10), Fr(1001, 10)]
+DEC_KINK_VALUES_MORE = DEC_KINK_VALUES + [Fr(1), Fr(-1, 10), Fr(7, 100), Fr(-25), Fr(4999, 10)]
+KINK_LIMITS = [("CLOSED", "CLOSED"), ("OPEN", "CLOSED"), ("CLOSED", "OPEN"), (None, None)]
+
+
+def vd(q):
+    """the double nearest to the decimal (rational) number q, as a float val"""
+    q = Fr(q)
+    return vf(Fr(q.numerator / q.denominator))
+
+
+def decimal_scale_linear(ity, pty, breaks, slopes, kink, y_kink, den=Fr(1), kink_limits=("CLOSED", "CLOSED"), jump=Fr(0),
+                         family="decimal"):
+    """SCALE-LINEAR through the ascending `breaks` with decimal `slopes` (one per segment), continuous in decimal
+    arithmetic, taking the value `y_kink` at the inner breakpoint number `kink` (1-based); all numerators are multiplied
+    by the decimal denominator `den`; `jump` is added to the last segment (a genuine discontinuity).  Coefficients of an
+    integer physical type stay integers (callers pass integral data then)."""
+    n = len(slopes)
+    mk = (lambda q: vnum(q, pty)) if pty in INT_TYPES else vd
+    # offsets in exact decimal arithmetic: continuity at every inner breakpoint, value y_kink at breakpoint `kink`
+    offs = [Fr(0)] * n
+    for k in range(1, n):
+        offs[k] = offs[k - 1] + (slopes[k - 1] - slopes[k]) * breaks[k]
+    shift = y_kink - (offs[kink - 1] + slopes[kink - 1] * breaks[kink]) if n > 1 else y_kink - slopes[0] * breaks[0]
+    offs = [o + shift for o in offs]
+    if n > 1:
+        offs[-1] += jump
+    scales = []
+    for k in range(n):
+        up, lo = kink_limits
+        s = {"lo": {"v": vnum(breaks[k], ity), "t": lo if k > 0 else "CLOSED"},
+             "hi": {"v": vnum(breaks[k + 1], ity), "t": up if k < n - 1 else "CLOSED"},
+             "inv": vnum(breaks[k], ity) if slopes[k] == 0 else None, "const": None,
+             "num": [mk(offs[k] * den), mk(slopes[k] * den)], "den": [mk(den)]}
+        scales.append(s)
+    return {"cat": "SCALE-LINEAR" if n > 1 else "LINEAR", "ity": ity, "pty": pty, "i2p": {"scales": scales, "default": None},
+            "p2i": None, "family": family}
+
+
+def decimal_small_scope(full):
+    """enumerated small scope: two decimal segments [0,k] and [k,255] of an A_UINT32 -> A_FLOAT64 method x every ordered pair of
+    different slopes of DEC_SLOPES x the value at the kink (0 and three others, small and large) x both directions
+    (increasing / decreasing) x the four limit-type pairs at the kink (cycled in quick, all in thorough)"""
+    ks = range(1, 10) if full else (1, 3, 7)
+    n = 0
+    for k in ks:
+        for fa in DEC_SLOPES:
+            for fb in DEC_SLOPES:
+                if fa == fb:
+                    continue
+                for y in DEC_KINK_VALUES:
+                    for sign in (1, -1):
+                        for kl in (KINK_LIMITS if full else (KINK_LIMITS[n % 4],)):
+                            n += 1
+                            yield decimal_scale_linear("A_UINT32", "A_FLOAT64", [0, k, 255], [sign * fa, sign * fb], 1, y,
+                                                       kink_limits=kl, family="decimal-small-scope")
+
+
+def kink_noise(desc):
+    """number of inner boundaries of a (SCALE-)LINEAR description at which the two adjacent formulas, evaluated in double
+    arithmetic as the implementation does, give two different doubles (although the exact values agree within 1e-10)"""
+    n = 0
+    sc = desc["i2p"]["scales"]
+    for a, b in zip(sc, sc[1:]):
+        try:
+            x = pyval(a["hi"]["v"])
+            ya = (pyval(a["num"][0]) + pyval(a["num"][1]) * x) / pyval(a["den"][0])
+            yb = (pyval(b["num"][0]) + pyval(b["num"][1]) * x) / pyval(b["den"][0])
+            if ya != yb and abs(ya - yb) < 1e-10:
+                n += 1
+        except Exception:  # noqa
+            pass
+    return n
+
+
+def gen_decimal(rng):
+    """random decimal methods: SCALE-LINEAR (2-4 segments, monotone continuous; every 6th with a jump; every 8th with a flat
+    segment) and LINEAR, all four internal types x the float physical types, kink at physical 0 with p = 0.4, decimal
+    denominators (10, 3, 0.1, -1).  Magnitudes stay below 2000.  (Integer physical types cannot carry decimal coefficients —
+    the XML reader parses COMPU-NUMERATOR with the physical type; their tenths are integer numerators over the denominators
+    3 / 5 / 10 of `_den`.)"""
+    ity = rng.choice(NUM_TYPES)
+    pty = rng.choice(FLOAT_TYPES + ("A_FLOAT64",))
+    n = rng.choice([1, 2, 2, 3, 3, 4])
+    lo, hi = _dom(ity)
+    if rng.random() < 0.5:
+        bs = sorted(rng.sample(range(max(lo, -20), 40), n + 1))
+    else:
+        bs = sorted(rng.sample(range(lo, hi + 1), n + 1))
+    sign = rng.choice([1, -1])
+    slopes = [sign * rng.choice(DEC_SLOPES_MORE) for _ in range(n)]
+    if n > 1 and rng.random() < 0.125:
+        slopes[rng.randrange(n)] = Fr(0)
+    y = Fr(0) if rng.random() < 0.4 else rng.choice(DEC_KINK_VALUES_MORE)
+    den = rng.choice([Fr(1), Fr(1), Fr(10), Fr(3), Fr(1, 10), Fr(-1)])
+    jump = Fr(0)
+    if n > 1 and rng.random() < 1 / 6:
+        jump = rng.choice([Fr(1, 1000), Fr(-1, 10), Fr(1, 2), Fr(3)])
+    return decimal_scale_linear(ity, pty, bs, slopes, rng.randint(1, max(1, n - 1)), y, den, rng.choice(KINK_LIMITS), jump)
+
+
+def gen_decimal_tab(rng):
+    """TAB-INTP with decimal samples (tenths): 2-5 points, increasing / decreasing / zigzag physical samples, all four
+    internal types (float internal types: decimal internal samples in half of the cases) x the float physical types"""
+    ity = rng.choice(NUM_TYPES)
+    pty = rng.choice(FLOAT_TYPES)
+    k = rng.randint(2, 5)
+    xs = [Fr(x) for x in _breaks(rng, ity, k - 1)]
+    if ity in FLOAT_TYPES and rng.random() < 0.5:
+        xs = sorted({x + Fr(rng.randint(0, 9), 10) for x in xs})
+        k = len(xs)
+    ys = rng.sample([Fr(i, 10) for i in range(-50, 200)], k)
+    fam = rng.choice(["up", "up", "down", "zigzag"])
+    if fam == "up":
+        ys.sort()
+    elif fam == "down":
+        ys.sort(reverse=True)
+    mkx = vi if ity in INT_TYPES else vd
+    scales = [{"lo": {"v": mkx(x), "t": rng.choice(["CLOSED", None])}, "hi": None, "inv": None, "const": vd(y), "num": None, "den": []}
+              for x, y in zip(xs, ys)]
+    return {"cat": "TAB-INTP", "ity": ity, "pty": pty, "i2p": {"scales": scales, "default": None}, "p2i": None, "family": "decimal-tab"}
+
+
 def gen_identical(rng):
     ity = rng.choice(NUM_TYPES + STR_TYPES)
     pty = ity if ity in NUM_TYPES else rng.choice(STR_TYPES)      # IDENTICAL requires equal types (any two string types)
@@ -1185,7 +1530,7 @@ def internal_values(rng, desc, thorough):
             if q == int(q):
                 out.append(vi(q))
         else:
-            out.append(vf(q))
+            out.append(as_double(vf(q)))
     # wrong / borderline Python types
     some = sorted(pts)[len(pts) // 2]
     if ity in INT_TYPES:
@@ -1201,6 +1546,7 @@ def physical_values(rng, desc, images, thorough):
     out, seen = [], set()
 
     def add(v):
+        v = as_double(v)
         k = (v[0], str(v[1]))
         if k not in seen:
             seen.add(k); out.append(v)
